@@ -16,6 +16,20 @@ use crate::{
     typer::Typer,
 };
 
+/// The type an annotation inside a function body denotes (closure parameter, let). It names
+/// types like a signature does: the constructors must exist and take that many arguments.
+fn annotated_ty(
+    genv: &PackageTypeEnv,
+    diagnostics: &mut Diagnostics,
+    ty: &hir::TypeExpr,
+    tparams: &[tast::TastIdent],
+) -> tast::Ty {
+    let annotated = tast::Ty::from_hir(genv, ty, tparams);
+    let tparam_names = tparams.iter().map(|t| t.0.clone()).collect();
+    super::util::validate_ty(genv, diagnostics, &annotated, &tparam_names);
+    annotated
+}
+
 impl Typer {
     fn error_expr(&mut self, astptr: Option<MySyntaxNodePtr>) -> tast::Expr {
         tast::Expr::EVar {
@@ -1419,7 +1433,7 @@ impl Typer {
         for param in params.iter() {
             let name_str = self.hir_table.local_ident_name(param.name);
             let param_ty = match &param.ty {
-                Some(ty) => tast::Ty::from_hir(genv, ty, &current_tparams_env),
+                Some(ty) => annotated_ty(genv, diagnostics, ty, &current_tparams_env),
                 None => self.fresh_ty_var(),
             };
             local_env.insert_var(param.name, param_ty.clone());
@@ -1473,7 +1487,7 @@ impl Typer {
                     let annotated_ty = param
                         .ty
                         .as_ref()
-                        .map(|ty| tast::Ty::from_hir(genv, ty, &current_tparams_env));
+                        .map(|ty| annotated_ty(genv, diagnostics, ty, &current_tparams_env));
 
                     let param_ty = match annotated_ty {
                         Some(ann_ty) => {
@@ -1528,7 +1542,7 @@ impl Typer {
         let current_tparams_env = local_env.current_tparams_env();
         let annotated_ty = annotation
             .as_ref()
-            .map(|ty| tast::Ty::from_hir(genv, ty, &current_tparams_env));
+            .map(|ty| annotated_ty(genv, diagnostics, ty, &current_tparams_env));
 
         let (value_tast, value_ty) = if let Some(ann_ty) = &annotated_ty {
             (
@@ -1614,7 +1628,7 @@ impl Typer {
         let current_tparams_env = local_env.current_tparams_env();
         let annotated_ty = annotation
             .as_ref()
-            .map(|ty| tast::Ty::from_hir(genv, ty, &current_tparams_env));
+            .map(|ty| annotated_ty(genv, diagnostics, ty, &current_tparams_env));
 
         let (value_tast, value_ty) = if let Some(ann_ty) = &annotated_ty {
             (
